@@ -60,78 +60,101 @@ def tlc_job(*a, **k):
 
 
 def prep(scens):
-    """Concatenate scenario logs; add the scenario number and, per record, the index of the previous record of the
-    same thread (bookkeeping for the trace spec's early-execution rule; no judgement here)."""
+    """Concatenate scenario logs; per record add the scenario number (1-based), the index of the scenario's last
+    record and the index of the previous record of the same thread (bookkeeping for the trace spec's
+    early-execution rule; no judgement here)."""
     out, spans = [], []
     for si, o in enumerate(scens):
         last = {}
         start = len(out) + 1
+        end = len(out) + len(o["events"])
         for e in o["events"]:
             e = dict(e)
             idx = len(out) + 1
-            e["sc"] = si
+            e["sc"] = si + 1
+            e["end"] = end
             e["pv"] = 0 if e["ev"] == "Reset" else last.get(e["th"], 0)
             last[e["th"]] = idx
             out.append(e)
-        spans.append((start, len(out)))
+        spans.append((start, end))
     return out, spans
 
 
-def tlc_trace(recs, tag, timeout=600):
+def tlc_trace(scens, tag, timeout=240):
+    """One TLC run over a batch of scenario logs (independent initial states).  Returns (set of accepted positions in
+    `scens`, {position: info} for the others, TLC result).  Raises ToolError on a TLC timeout."""
+    recs, spans = prep(scens)
     path = os.path.join(vlib.workdir("C20"), "trace-%s-%d-%d.ndjson" % (re.sub(r"[^A-Za-z0-9]+", "-", tag), os.getpid(), threading.get_ident() % 100000))
     vlib.write_lines(path, recs)
     try:
-        r = run_tlc("Trace_Shutdown.tla", "Trace_Shutdown.cfg", D, workers=1, env={"TRACE": path}, deque=True,
+        r = run_tlc("Trace_Shutdown.tla", "Trace_Shutdown.cfg", D, workers=1, env={"TRACE": path},
                     work_id="c20tr", timeout=timeout, heap="3g")
     finally:
         os.remove(path)
-    accepted = r.violated_name == "NotAccepted"
-    info = None
-    if not accepted:
-        if r.violated_name and r.violated_name != "NotAccepted":
-            info = {"invariant": r.violated_name}
-        for p in r.prints:
-            if isinstance(p, dict) and "rejected_at" in p:
-                info = dict(info or {}, **p)
-        if info is None:
-            raise vlib.ToolError("trace validation produced no verdict:\n" + r.out[-1500:])
-    return accepted, info, r
+    acc = set()
+    for line in r.raw_prints:
+        m = re.match(r'<<"ACC", (\d+)>>', line)
+        if m:
+            acc.add(int(m.group(1)) - 1)
+    far = None
+    for p in r.prints:
+        if isinstance(p, dict) and "far" in p:
+            far = p["far"]
+    info = {}
+    if r.violation == "invariant" and r.violated_name != "Report":
+        # an invariant of Shutdown failed inside some scenario: TLC stopped; the scenario is named in the last state
+        m = re.findall(r"/\\ sc = (\d+)", "\n".join(r.trace))
+        k = int(m[-1]) - 1 if m else 0
+        info[k] = {"invariant": r.violated_name, "stopped": True}
+        return acc, info, r
+    if far is None:
+        raise vlib.ToolError("trace validation produced no verdict:\n" + r.out[-1500:])
+    for k in range(len(scens)):
+        if k not in acc:
+            at = far[k]
+            lo, hi = spans[k]
+            info[k] = {"rejected_at": at, "record_in_scenario": at - lo, "event": recs[at - 1] if lo <= at <= hi else None}
+    return acc, info, r
 
 
-def validate(ctx, scens, label):
-    """TLC validates the logs, all scenarios of a batch in one run (Reset records between them).  When the run stops at
-    an inexplicable record, the scenarios before it were accepted, that scenario is reported, and validation goes on
-    with the ones after it.  (A run that times out is repeated scenario by scenario.)
-    Returns (number accepted, list of (scenario, info) rejected)."""
+def validate(ctx, scens, label, chunk=80):
+    """TLC validates the logs in batches (every scenario an independent initial state, so an inexplicable log cannot
+    disturb the others).  A batch that times out is split in two and retried; a single scenario that cannot be explained
+    within the time bound is reported like a rejected one.  Returns (number accepted, [(scenario, info)] rejected)."""
     todo = [s for s in scens if s.get("events")]
-    acc, rejected = 0, []
-    while todo:
-        recs, spans = prep(todo)
+    batches = [todo[i:i + chunk] for i in range(0, len(todo), chunk)]
+    accepted, rejected = 0, []
+
+    def work(batch, depth=0):
         try:
-            ok, info, r = tlc_trace(recs, label, timeout=400)
+            acc, info, r = tlc_trace(batch, label, timeout=240 if len(batch) > 1 else 120)
         except vlib.ToolError as e:
             if "timed out" not in str(e):
                 raise
-            with cf.ThreadPoolExecutor(max_workers=4) as tp:
-                futs = [tp.submit(tlc_trace, prep([o])[0], label, 300) for o in todo]
-                for o, f in zip(todo, futs):
-                    ok1, info1, r1 = f.result()
-                    ctx.add_tlc("trace validation: %s scenario %s" % (label, o["scenario"]), r1)
-                    if ok1:
-                        acc += 1
-                    else:
-                        rejected.append((o, dict(info1, record_in_scenario=info1.get("rejected_at", 1) - 1)))
-            break
-        ctx.add_tlc("trace validation: %s (%d scenarios, %d records)" % (label, len(todo), len(recs)), r)
-        if ok:
-            acc += len(todo)
-            break
-        at = info.get("rejected_at", 1)
-        k = next((i for i, (a, b) in enumerate(spans) if a <= at <= b), len(todo) - 1)
-        acc += k
-        rejected.append((todo[k], dict(info, record_in_scenario=at - spans[k][0])))
-        todo = todo[k + 1:]
-    return acc, rejected
+            if len(batch) == 1:
+                return 0, [(batch[0], {"unexplained_within_bound": True, "event": None})], []
+            h = len(batch) // 2
+            a1, r1, t1 = work(batch[:h], depth + 1)
+            a2, r2, t2 = work(batch[h:], depth + 1)
+            return a1 + a2, r1 + r2, t1 + t2
+        runs = [("trace validation: %s (%d scenarios)" % (label, len(batch)), r)]
+        rej = [(batch[k], i) for k, i in sorted(info.items())]
+        n = len(acc)
+        stopped = [k for k, i in info.items() if i.get("stopped")]
+        if stopped:
+            rest = [o for j, o in enumerate(batch) if j != stopped[0] and j not in acc]
+            if rest:
+                a2, r2, t2 = work(rest, depth + 1)
+                return n + a2, rej + r2, runs + t2
+        return n, rej, runs
+
+    with cf.ThreadPoolExecutor(max_workers=4) as tp:
+        for a, rj, runs in tp.map(work, batches):
+            accepted += a
+            rejected += rj
+            for name, r in runs:
+                ctx.add_tlc(name, r)
+    return accepted, rejected
 
 
 def run_harness(path, args, stdin_data=None, timeout=1500):
@@ -307,11 +330,11 @@ def run(tier, replay):
     ]
     caught = 0
     with cf.ThreadPoolExecutor(max_workers=4) as tp:
-        futs = [(name, tp.submit(tlc_trace, prep([m])[0], "selftest", 300)) for name, m in muts]
+        futs = [(name, tp.submit(tlc_trace, [m], "selftest", 120)) for name, m in muts]
         for name, f in futs:
-            ok, info, r = f.result()
+            acc1, info, r = f.result()
             ctx.add_tlc("self-test: corrupted log (%s) must be rejected" % name, r)
-            if ok:
+            if acc1:
                 raise vlib.ToolError("self-test failed: corrupted log accepted (%s)" % name)
             caught += 1
     ctx.add_part("self-test", corrupted_logs=len(muts), rejected=caught)
